@@ -128,9 +128,10 @@ Definition bcast_seq (k : nat) (sh : list nat) (cells : list pyval) : option (li
 (* ------------------------------------------------------------------ containers *)
 Record var : Type := mkVar { vdtype : dtype; vshape : list nat; vdata : list pyval }.
 
-Inductive regent : Type := RName (s : string) | RJunk.       (* an entry of the _attributes list *)
+Inductive regent : Type := RName (s : string).               (* an entry of the _attributes list: always a str *)
 Definition reg_mem (x : string) (r : list regent) : bool :=
-  existsb (fun e => match e with RName s => String.eqb x s | RJunk => false end) r.
+  existsb (fun e => match e with RName s => String.eqb x s end) r.
+Definition reg_names (r : list regent) : list string := map (fun e => match e with RName s => s end) r.
 
 Inductive ckind : Type := CVC | CModel | CLinker (extra : nat).   (* extra = sum of the submodels' sizes *)
 
@@ -171,12 +172,22 @@ Inductive key : Type :=
 | KTuple3                                                      (* a tuple whose length is not 2 *)
 | KOther.                                                      (* neither str nor tuple *)
 
+(* public read-only hooks *)
+Inductive query : Type :=
+| QCompletions                 (* obj._ipython_key_completions_() *)
+| QDir                         (* dir(obj): the part that depends on the instance (the class's own dir is a constant) *)
+| QContains (name : string)    (* name in obj *)
+| QNbytes.                     (* obj.nbytes *)
+
+Inductive qval : Type := VNames (l : list string) | VBool (b : bool) | VNat (n : nat).
+
 Inductive op : Type :=
 | AddVariable (name : string) (v : operand) (dt : option dreq)
 | SetAttr (name : string) (v : operand) (hint : option string)  (* obj.name = v; hint = difflib's answer, see below *)
 | SetItem (k : key) (v : operand)
 | ReplaceValues (kvs : list (string * operand))
-| AddAttribute (name : string) (v : operand).
+| AddAttribute (name : string) (v : operand)
+| Query (q : query).                                             (* a public read-only hook is called (what it returns: `read`) *)
 (* obj.values = v  is  SetAttr "values" v ;  obj.strict = b  is  SetAttr "strict" (OScalar (PBool b)) *)
 
 (* ------------------------------------------------------------------ span lookup (list / range spans: .index) *)
@@ -536,21 +547,6 @@ Section Model.
       else add_attribute name value s
     else setattr_var name value s.
 
-  (* self.__dict__['_' + name] for a name that is not a variable: which object is found *)
-  Inductive hidden : Type := HRegistry | HNoItemAssign | HMissing | HUnmodelled.
-  Definition hidden_lookup (name : string) (s : state) : hidden :=
-    if String.eqb name "attributes" then HRegistry               (* '_attributes' : a list *)
-    else if String.eqb name "strict" then HNoItemAssign          (* '_strict' : a bool *)
-    else if (match kind s with CLinker _ => (String.eqb name "LAGS" || String.eqb name "LEADS")%bool | _ => false end)
-    then HNoItemAssign                                           (* '_LAGS', '_LEADS' : ints *)
-    else match assoc (String "_" name) (adict s) with
-         | Some _ => HUnmodelled                                 (* a user attribute whose name starts with '_' *)
-         | None => HMissing
-         end.
-
-  Definition regent_of (value : operand) : regent :=
-    match value with OScalar (PStr x) => RName x | _ => RJunk end.
-
   Definition setitem (k : key) (value : operand) (s : state) : res :=
     match k with
     | KName name =>
@@ -559,6 +555,8 @@ Section Model.
     | KTuple3 => err s IndexError
     | KOther => err s TypeError
     | KLabel name l =>
+        if negb (mem name (index s)) then err s KeyError          (* fix 216fc36: before anything is located or written *)
+        else
         match locate (span s) l with
         | Raise e => err s e
         | Ret p =>
@@ -566,18 +564,12 @@ Section Model.
             | Some v =>
                 let '(v', e) := assign_item v p value in
                 (set_vars s (assoc_set name v' (vars s)), match e with Some x => Raise x | None => Ret tt end)
-            | None =>
-                match hidden_lookup name s with
-                | HRegistry =>                                    (* _attributes[p] = value : list item assignment *)
-                    if Nat.ltb p (length (registry s)) then ok (set_registry s (upd p (regent_of value) (registry s)))
-                    else err s IndexError
-                | HNoItemAssign => err s TypeError
-                | HMissing => err s KeyError
-                | HUnmodelled => err s OtherError
-                end
+            | None => err s KeyError                              (* self.__dict__['_' + name] *)
             end
         end
     | KSlice name a b st =>
+        if negb (mem name (index s)) then err s KeyError
+        else
         match resolve_slice (span s) a b st with
         | Raise e => err s e
         | Ret (sl, el, step) =>
@@ -591,14 +583,9 @@ Section Model.
                         let '(v', e) := assign_inplace v ps value in
                         (set_vars s (assoc_set name v' (vars s)), match e with Some x => Raise x | None => Ret tt end)
                     end
-                | _ => err s OtherError
+                | _ => err s OtherError                           (* a series that is not rank 1: unreachable, see no_other_error *)
                 end
-            | None =>
-                match hidden_lookup name s with
-                | HNoItemAssign => err s TypeError
-                | HMissing => err s KeyError
-                | _ => err s OtherError                           (* list slice assignment on _attributes: not modelled *)
-                end
+            | None => err s KeyError
             end
         end
     end.
@@ -662,8 +649,31 @@ Section Model.
         end
     end.
 
+  (* ---------------------------------------------------------------- read-only hooks: (state afterwards, what is returned) *)
+  Definition itemsize (d : dtype) : nat :=
+    match d with DFloat => 8 | DInt => 8 | DBool => 1 | DStr k => 4 * k | DObj => 8 end.
+  Definition nbytes_of (rn : string -> string) (s : state) : outcome nat :=     (* sum(self[k].nbytes for k in index) *)
+    fold_right (fun x acc => match acc with
+                             | Raise e => Raise e
+                             | Ret a => match assoc (rn x) (vars s) with
+                                        | Some v => if mem (rn x) (index s)
+                                                    then Ret (prod_shape (vshape v) * itemsize (vdtype v) + a)
+                                                    else Raise KeyError
+                                        | None => Raise KeyError
+                                        end
+                             end) (Ret 0) (index s).
+
+  Definition read (q : query) (s : state) : state * outcome qval :=
+    match q with
+    | QCompletions => (s, Ret (VNames (index s)))                              (* return self.__dict__['index'] *)
+    | QDir => (s, Ret (VNames (index s ++ reg_names (registry s))))            (* dir(type(self)) + index + _attributes *)
+    | QContains n => (s, Ret (VBool (mem n (row_names s))))                    (* VectorContainer: index; ModelInterface: names *)
+    | QNbytes => (s, match nbytes_of (fun x => x) s with Ret n => Ret (VNat n) | Raise e => Raise e end)
+    end.
+
   Definition step (o : op) (s : state) : res :=
     match o with
+    | Query q => (fst (read q s), Ret tt)       (* the call is made; its value / exception is `snd (read q s)` *)
     | AddVariable name v dt => add_variable name v dt s
     | SetAttr name v hint => setattr name v hint s
     | SetItem k v => setitem k v s
@@ -733,8 +743,6 @@ Section Model.
     end))))))))).
 
   (* ---------------------------------------------------------------- observations *)
-  Definition itemsize (d : dtype) : nat :=
-    match d with DFloat => 8 | DInt => 8 | DBool => 1 | DStr k => 4 * k | DObj => 8 end.
   Definition nbytes_own (s : state) : nat :=
     fold_right (fun x acc => match assoc x (vars s) with
                              | Some v => prod_shape (vshape v) * itemsize (vdtype v) + acc
